@@ -66,7 +66,7 @@ class Obligation:
 class Engine:
     """One engine per function under verification."""
 
-    def __init__(self, mod, fd, qual, registry=None, lib=None, concrete=False, feas_timeout=1500):
+    def __init__(self, mod, fd, qual, registry=None, lib=None, concrete=False, feas_timeout=300):
         self.mod, self.fd, self.qual = mod, fd, qual
         self.registry = registry
         self.lib = lib or {}
@@ -126,6 +126,8 @@ class Engine:
             return cond
         s = z3.Solver()
         s.set('timeout', self.feas_timeout)
+        s.set('auto_config', False)
+        s.set('smt.mbqi', False)        # pruning only needs cheap refutations; `unknown` keeps the branch (sound)
         s.add(*st.pc)
         if cond is not None:
             s.add(cond)
@@ -688,7 +690,12 @@ class Engine:
                 return self.arr_getitem(base, o, idx, st)
             if isinstance(o, SymListV):
                 if isinstance(idx, SliceV):
-                    raise OutOfSubset('slice of symbolic list')
+                    if idx.step is not None:
+                        raise OutOfSubset('slice step')
+                    from . import npmodel
+                    lo = 0 if idx.lo is None else npmodel.clip_index(idx.lo, o.n)
+                    hi = o.n if idx.hi is None else npmodel.clip_index(idx.hi, o.n)
+                    return new_ref(st, SymListV(maxv(sub(hi, lo), 0), lambda i, o=o, lo=lo: o.at(add(i, lo)), o.elem))
                 i = self.norm_index(idx, o.n, st)
                 return o.at(i)
         raise OutOfSubset('subscript of %r' % (base,))
@@ -914,7 +921,25 @@ class Engine:
                 yield st1, ('raise', c.cls)
                 continue
             for t, st2 in self.split(st1, self.truth(c, st1)):
+                self.refine_none(s.test, t, st2)
                 yield from self.ex_block(s.body if t else s.orelse, st2)
+
+    def refine_none(self, test, truth, st):
+        """after branching on `x is None` / `x is not None` (possibly inside and/or), rebind x to its plain value / None"""
+        if isinstance(test, ast.BoolOp):
+            if (isinstance(test.op, ast.And) and truth) or (isinstance(test.op, ast.Or) and not truth):
+                for v in test.values:
+                    self.refine_none(v, truth, st)
+            return
+        if isinstance(test, ast.UnaryOp) and isinstance(test.op, ast.Not):
+            self.refine_none(test.operand, not truth, st)
+            return
+        if isinstance(test, ast.Compare) and len(test.ops) == 1 and isinstance(test.left, ast.Name) and \
+                isinstance(test.comparators[0], ast.Constant) and test.comparators[0].value is None:
+            v = st.env.get(test.left.id)
+            if isinstance(v, Opt):
+                is_none = isinstance(test.ops[0], ast.Is) == truth
+                st.env[test.left.id] = None if is_none else v.val
 
     def ex_Assert(self, s, st):
         yield st, None
